@@ -63,6 +63,11 @@ theorem exd_parse (s : Schema) (rows : List Row) (h : 8 * rows.length < 42949672
       magic, skip, List.take, List.drop, List.length, u16be_put, u32be_put, if_true, div8 _ h, hidx]
   simp only [Exd.fromExisting, hhead, toExd]
 
+theorem encodeExd_length (s : Schema) (rows : List Row) :
+    (encodeExd s rows).length = 32 + 8 * rows.length + (((chunksOf s rows).map (·.2)).flatten).length := by
+  simp only [encodeExd, List.length_append, encodeExdHeader_length, encodeIndex_length]
+  simp [chunksOf]
+
 theorem find_index : ∀ (pre : List (UInt32 × Bytes)) (post : List (UInt32 × Bytes)) (id : UInt32)
     (chunk : Bytes) (base : Nat), id ∉ pre.map (·.1) →
     (indexEntries (pre ++ (id, chunk) :: post) base).find? (fun o => o.rowId == id)
